@@ -87,6 +87,21 @@ Section Memo.
       destruct (keq k k2); intros E; [lia|]. specialize (IH E). cbn. lia.
     - rewrite firstn_length. lia.
   Qed.
+  (* key_sound is NECESSARY: as soon as the key equality identifies two requests with different answers, the two-call
+     history [k1; k2] makes the cache (of any size >= 1, or unbounded) return k1's answer for k2 *)
+  Lemma stale_answer maxsize k1 k2 : keq k2 k1 = true -> maxsize <> Some O ->
+    fst (run maxsize [] [k1; k2]) = [f k1; f k1].
+  Proof.
+    intros Hk Hm. destruct maxsize as [[|m]|]; [congruence| |].
+    - cbn. rewrite firstn_nil. unfold call. cbn [lookup]. rewrite Hk. reflexivity.
+    - cbn. unfold call. cbn [lookup]. rewrite Hk. reflexivity.
+  Qed.
+  Lemma key_sound_necessary maxsize : maxsize <> Some O ->
+    (forall ks, fst (run maxsize [] ks) = map f ks) -> forall k1 k2, keq k2 k1 = true -> f k2 = f k1.
+  Proof.
+    intros Hm H k1 k2 Hk. specialize (H [k1; k2]). rewrite (stale_answer maxsize k1 k2 Hk Hm) in H.
+    cbn [map] in H. inversion H. auto.
+  Qed.
 End Memo.
 
 Example memo_ex : fst (run Nat.eqb (fun k => k * k) (Some 2) [] [3; 4; 3; 5; 4; 3]) = [9; 16; 9; 25; 16; 9]
